@@ -15,6 +15,9 @@ import threading
 SRC_PREFIX = None   # set by configure()
 
 
+STEP_TIMEOUT = 60      # seconds of wall time for ONE step of one thread (a step is a few bytecodes)
+
+
 class Deadlock(Exception):
     pass
 
@@ -25,6 +28,11 @@ class HorizonExceeded(Exception):
 
 class ReplayDivergence(Exception):
     pass
+
+
+class Stuck(Exception):
+    """the running thread neither reached a scheduling point nor finished within the step timeout: it blocks on something the
+    scheduler does not control (a real lock taken by a parked thread, a sleep, an endless loop outside the traced region)"""
 
 
 _CUR = None   # the Execution currently running (one at a time per process)
@@ -199,8 +207,9 @@ class Execution:
                 if step > self.horizon:
                     raise HorizonExceeded(step)
                 self.sems[cur].release()
-                self.main.acquire()
-        except (Deadlock, HorizonExceeded, ReplayDivergence):
+                if not self.main.acquire(timeout=STEP_TIMEOUT):
+                    raise Stuck((cur, self.at[cur]))
+        except (Deadlock, HorizonExceeded, ReplayDivergence, Stuck):
             # let the threads run to completion without control so that the process stays usable
             self._abandon()
             raise
@@ -261,6 +270,10 @@ def explore_subtree(make, region, bound, root_prefix, check, stats, horizon=2000
             continue
         except HorizonExceeded:
             check(("livelock",), ex, ctx, prefix)
+            stats["executions"] += 1
+            continue
+        except Stuck as e:
+            check(("stuck", repr(e.args[0])[:300]), ex, ctx, prefix)
             stats["executions"] += 1
             continue
         stats["executions"] += 1
